@@ -258,8 +258,9 @@ fn run(ctx: &mut Ctx) {
     let n = ctx.tier.pick(600, 20_000);
     ctx.cases("fitted-shapes", n, |ctx, i, rng| {
         let fam = [19usize, 19, 0, 12][(i % 4) as usize];
-        let np = 13 + rng.usize(if i % 5 == 0 { 200 } else { 60 });
-        let pts = crate::geom::family(rng, fam, np);
+        // mostly 13..270 hits; now and then more than 2^9, 2^10, 2^11 (the property puts no bound on a cluster)
+        let np = if i % 40 == 7 { *rng.pick(&[513usize, 600, 1025, 1200, 2049]) } else { 13 + rng.usize(if i % 5 == 0 { 200 } else { 60 }) };
+        let pts = crate::geom::family(rng, if np > 500 { [0usize, 19][(i / 40 % 2) as usize] } else { fam }, np);
         if pts.len() < 13 {
             return;
         }
